@@ -575,7 +575,7 @@ class Reads(Suite):
     spec = "rspec_ok"
     corr = ("Graph.subjects/predicates/objects/subject_predicates/subject_objects/predicate_objects (unique False/True), "
             "Graph.value (any True/False), Graph.triples_choices + Store.triples_choices")
-    quick_n = 220
+    quick_n = 160
     thorough_n = 8000
     timeout_s = 20.0
 
@@ -688,7 +688,7 @@ class StoreLevel(Suite):
     spec = "tspec_ok"
     corr = ("Memory.add/remove/triples/__len__ with context=None or a graph, Memory.contexts()/contexts(triple)/add_graph/remove_graph; "
             "SimpleMemory.add/remove/triples/__len__ with any context")
-    quick_n = 300
+    quick_n = 240
     thorough_n = 10000
     timeout_s = 20.0
 
